@@ -7,7 +7,8 @@ FIRST = {"C17-a1","C17-a2","C17-b1","C18-a2","C18-b2","C14-a1","C14-a2","C17-c1"
 rows = []
 for path in sorted(glob.glob("/verif/seeded/*/meta.json")):
     m = json.load(open(path))
-    m["caught_when"] = "first" if m["id"] in FIRST else "after strengthening"
+    if "caught_when" not in m:
+        m["caught_when"] = "first" if m["id"] in FIRST else "after strengthening"
     json.dump(m, open(path, "w"), indent=1)
     rows.append(m)
 table = "| id | what the change does | needs | caught | by (first violation key) |\n|---|---|---|---|---|\n"
